@@ -1113,7 +1113,7 @@ fn run_scenario(mut s: Scn, thorough: bool, start: i32) -> Report {
     // a scenario with thousands of calls (removing a tree 2 000 levels deep) times every answer of every call is
     // quadratic: fail every call in the first and the last 64 positions only, and say so
     const SINGLE_WINDOW: usize = 64;
-    if n > 8 * SINGLE_WINDOW {
+    if n > 8 * SINGLE_WINDOW && !singles.is_empty() {
         let before = singles.len();
         singles.retain(|f| f.child || f.k < SINGLE_WINDOW || f.k + SINGLE_WINDOW >= n);
         r.cap(format!("{name}: {n} parent-side calls; single deviations enumerated for the first and last {SINGLE_WINDOW} call positions only ({} of {before})", singles.len()));
